@@ -19,7 +19,8 @@ EXPLANATION = (
     '_get_first_name and group_period; (Keyword, AS) and (Punctuation, .) are emitted with exactly those types. R12.3: the '
     'accessors and identifier-building passes look up neighbours whitespace-insensitively: skip_ws left at True and whitespace '
     'recognised by type containment, never by identity with T.Whitespace (a Newline is whitespace too). R12.4: get_alias has an '
-    'AS branch and an implicit-alias branch; the name accessors are effect-free.')
+    'AS branch and an implicit-alias branch; the name accessors are effect-free. R12.5: the grouping drivers behind the identifier passes '
+    '(_group, @recurse) have no size/depth cut-off and visit every sub-group. R12.6: accessor wiring.')
 
 NAME = TT(('Name',))
 SYMBOL = TT(('Literal', 'String', 'Symbol'))
